@@ -209,7 +209,7 @@ theorem wrap_progress (fx : Fixes) (hfx : fx.forceProgress = false)
       rcases hfit with h | ⟨h1, h2 | h3⟩
       · omega
       · exact absurd ⟨by omega, Or.inl h2⟩ hnf
-      · exact absurd ⟨by omega, Or.inr (Or.inr h3)⟩ hnf
+      · exact absurd ⟨by omega, Or.inr (Or.inr h3.2)⟩ hnf
     | nl style' gs' rest' hs' hl' heq hnl =>
       rw [hs] at hs'; cases hs'
       rw [h0] at heq
